@@ -3,8 +3,11 @@ package main
 import (
 	"bytes"
 	"fmt"
+	"io"
 	"strconv"
 	"strings"
+
+	"gitlab.com/gomidi/midi/v2/smf"
 )
 
 // failWriter accepts k bytes in total, then fails (short write + error).
@@ -185,6 +188,23 @@ func runC10Write(c Case, m *Model, v *Verdict) {
 			v.Counts["write-faults-transient"]++
 			if ft.failed && errT == nil {
 				v.Oracle = append(v.Oracle, fmt.Sprintf("one Write of the destination failed (at offset %d of %d, later Writes succeeded) but WriteTo returned nil :: %s", k, n, short(c.Op)))
+			}
+		}
+		// the same fault with a logger configured (SMF.Logger): logging must not swallow the error
+		if k < n && i%2 == 0 {
+			fl := &failWriter{k: k}
+			var errL error
+			if p := try(func() {
+				sl := h.build()
+				sl.Logger = smf.LogTo(io.Discard)
+				_, errL = sl.WriteTo(writerVariant(fl, i))
+			}); p != "" {
+				v.Oracle = append(v.Oracle, fmt.Sprintf("panic while writing with a logger into a failing destination (k=%d): %s", k, p))
+				return
+			}
+			v.Counts["write-faults-with-logger"]++
+			if errL == nil {
+				v.Oracle = append(v.Oracle, fmt.Sprintf("with SMF.Logger set: destination failed after %d of %d bytes but WriteTo returned nil :: %s", k, n, short(c.Op)))
 			}
 		}
 		// ... and as a failure reported together with the full count (the bytes were taken, committing them failed),
